@@ -141,7 +141,7 @@ Definition check (fx : fixes) (c : case) : verdict :=
      v_guards := guards [
        (1%Z, negb (fx_F1 fx) && existsb (g_F1_query (caps_of c) sl (fx_F4 fx)) qs);
        (2%Z, negb (fx_F2 fx) && existsb (g_F2_query (fx_F6 fx) L) qs);
-       (3%Z, negb (fx_F3 fx) && g_F3_adds adds);
+       (3%Z, g_F3_adds (fx_F3 fx) adds);
        (4%Z, negb (fx_F4 fx) && (existsb (g_F4_query sl L) qs || (matched c && g_F4_decision sl L)));
        (5%Z, existsb (g_F5_query L) qs || g_F5_adds adds);
        (6%Z, negb (fx_F6 fx) && existsb g_F6_query qs);
@@ -156,6 +156,10 @@ Definition check_auto (c : case) : verdict := check (k_fx c) c.
 (** the tree since fix: b2286d8 — C13-F1 is repaired: the repaired variant is expected whatever the
     sentinel says (a regression is then an ordinary VIOLATION); the candidate repairs by sentinel *)
 Definition check_f1fixed (c : case) : verdict := check (set_F1 true (k_fx c)) c.
+
+(** /repo at abe584c: all six repairs are in (F1 b2286d8, F2 7c3e9fc, F3 a5ef279, F4 ae6db4f, F6 06faa19,
+    F7 19923cd): the fully repaired variant is expected, whatever the sentinels say *)
+Definition check_repo (c : case) : verdict := check repo_now c.
 
 (* short constructors for the generated case files *)
 Definition lrq m t h p q hs b pe :=
